@@ -100,8 +100,12 @@ def gen(rng, tier):
         for n in sorted(cuts):
             out.append(dict(family='slab', spec=c, cut=n))
     # wind (oracle only; a reader that does not return within 5 s is reported)
-    for fi in range(1 if tier == 'quick' else 4):
-        c = S.gen_wind(rng)
+    for fi in range(2 if tier == 'quick' else 6):
+        while True:
+            c = S.gen_wind(rng)
+            # both header variants on every run, each with several layers
+            if c['nz'] >= 2 and (c['stag'] is None) == (fi % 2 == 0):
+                break
         c['nx'], c['ny'] = 2, 2
         c['data'] = [[sl[:4] for sl in slabs] for slabs in c['data']]
         size = len(S.wind_encode(c))
@@ -110,6 +114,10 @@ def gen(rng, tier):
             cuts = range(size)
         else:
             cuts = {t * per + d for t in range(len(c['flags']) + 1) for d in range(-4, 48) if 0 <= t * per + d < size}
+            # every record boundary inside the first two steps (the end of each layer's U and V record)
+            hl = 16 if c['stag'] is None else 20
+            cuts |= {t * per + hl + k * 24 + d for t in range(min(2, len(c['flags']))) for k in range(2 * c['nz'] + 2)
+                     for d in (-4, 0, 4) if 0 <= t * per + hl + k * 24 + d < size}
             cuts |= {rng.randrange(size) for _ in range(40)}
         for n in sorted(cuts):
             out.append(dict(family='wind', spec=c, cut=n))
@@ -156,7 +164,7 @@ def gen(rng, tier):
             cuts = {mk + d for mk in marks for d in (-4, -3, -2, -1, 0, 1, 2, 3, 4) if 0 <= mk + d < size}
             cuts |= {rng.randrange(size) for _ in range(30)}
         for n in sorted(cuts):
-            out.append(dict(family='bpch', spec=c, cut=n))
+            out.append(dict(family='bpch', spec=c, cut=n, mode='r+' if n % 2 else 'r'))
     return out
 
 
@@ -249,7 +257,7 @@ def _oracle_bnd(case, res):
     return None
 
 
-def _bpch_read(spec, b):
+def _bpch_read(spec, b, mode='r'):
     from PseudoNetCDF.geoschemfiles._bpch import bpch1
     from . import c18
     d = tempfile.mkdtemp(prefix='c14b_', dir=camx.tmpdir())
@@ -258,7 +266,14 @@ def _bpch_read(spec, b):
         open(p, 'wb').write(b)
         B.tables(spec, d)
         with contextlib.redirect_stdout(io.StringIO()):
-            return c18.view(bpch1(p, noscale=True), spec)
+            try:
+                f = bpch1(p, noscale=True, mode=mode)
+                v = c18.view(f, spec)
+                del f
+            finally:
+                size_after = os.path.getsize(p)
+            v['size_after'] = size_after
+            return v
     finally:
         shutil.rmtree(d, True)
 
@@ -278,7 +293,9 @@ def impl(case):
             b, full = {'slab': _slab_full, 'bpch': _bpch_full, 'wind': _wind_full, 'bnd': _bnd_full}[fam](case['spec'])
             p = b[:case['cut']]
             try:
-                if fam == 'bnd':
+                if fam == 'bpch':
+                    v = _bpch_read(case['spec'], p, case.get('mode', 'r'))
+                elif fam == 'bnd':
                     v = _bnd_read(case['spec'], p, case.get('mode', 'r'))
                 else:
                     v = {'slab': _slab_read, 'bpch': _bpch_read, 'wind': _wind_read}[fam](case['spec'], p)
@@ -406,6 +423,8 @@ def _oracle_wind(case, res):
 def _oracle_bpch(case, res):
     b, full = _bpch_full(case['spec'])
     v = res['view']
+    if v.get('size_after') is not None and v['size_after'] != case['cut']:
+        return 'opening a prefix of %d bytes (mode %s) changed the file on disk to %d bytes' % (case['cut'], case.get('mode'), v['size_after'])
     nt = case['spec']['nt']
     k = len(v['tau0'])
     if k > nt or v['tau0'] != full['tau0'][:k] or v['tau1'] != full['tau1'][:k]:
